@@ -576,7 +576,7 @@ func ruleSettingsCopy(p *Prog, r *Out) {
 
 func init() {
 	register(&Rule{
-		Name: "frame-step-order", Props: []string{"C08", "C01", "C10"}, Engine: "AST", Floor: 6,
+		Name: "frame-step-order", Props: []string{"C08", "C01", "C10", "C13"}, Engine: "AST", Floor: 6,
 		Doc: "within one iteration of the stream loop the steps run in the order the state machine needs: sample the closing flag, look the stream up, classify an unknown id, implicit close of idle streams, handleFrame, handleState, the dispatch/resume test, the closed-stream sweep, the graceful-close test; and a response's HEADERS frame is encoded and queued before any of its DATA",
 		Run: ruleFrameStepOrder,
 	})
